@@ -21,7 +21,8 @@ RULE = ("A real AsyncZeroconf with 0..2 registered services, browsers (created d
         "second real instance keeps talking. After async_close returns the loop runs for 2 more virtual hours with datagrams "
         "injected at the closed instance. Monitors: three complete goodbyes for every registered service on the wire before "
         "close returns, and the last word on the wire about every instance the host ever advertised (a registration completing "
-        "during close included) is a goodbye; afterwards no datagram on the wire from the host, no send attempt on its dead transports, no listener/"
+        "during close included) is a goodbye - and so is the last word about every SRV, TXT, address and NSEC record it multicast "
+        "(services may share a host name with different address sets); afterwards no datagram on the wire from the host, no send attempt on its dead transports, no listener/"
         "browser callback, nothing in the loop exception handler; pending lookups return by their timeout; a second close sends "
         "nothing and does not raise. A few real-time runs exercise Zeroconf() with its own loop thread, ServiceBrowser threads "
         "and close() from another thread. Distinct = (in-flight activity set, close offset bucket, browser kind, layout).")
